@@ -159,3 +159,136 @@ def store_ops(model, payload):
                 finally:
                     shutil.rmtree(d, ignore_errors=True)
     return {"reproduced": False, "detail": "store_blob / has_blob / fetch_blob behave as specified from all %d leftover states x 5 value types (incl. empty text and empty bytes)" % sum(1 for r in range(3) for _ in itertools.combinations(leftovers, r))}
+
+
+def memory_ops(model, payload):
+    """MemoryStore against a dict model: every sequence of <= 4 operations {store, has, fetch} over keys whose values are
+    a string, None, the empty string and 0 (falsy values are values: once stored, the key is present)."""
+    from dds.store import MemoryStore
+
+    vals = {"k_str": "v", "k_none": None, "k_empty": "", "k_zero": 0}
+    ops = [(o, k) for o in ("store", "has", "fetch") for k in vals]
+    n = 0
+    for L in range(1, 5):
+        for seq in itertools.product(ops, repeat=L):
+            if L > 2 and len({k for _, k in seq}) > 2:
+                continue
+            n += 1
+            st, ref = MemoryStore(), {}
+            for i, (o, k) in enumerate(seq):
+                if o == "store":
+                    st.store_blob(k, vals[k], None)
+                    ref[k] = vals[k]
+                    continue
+                got = st.has_blob(k) if o == "has" else st.fetch_blob(k)
+                want = (k in ref) if o == "has" else ref.get(k)
+                if got != want or type(got) is not type(want):
+                    return {"reproduced": True, "detail": "MemoryStore, operations %s: step %d %s(%s) -> %r, a store that holds exactly what was stored answers %r" % (["%s(%s)" % x for x in seq], i + 1, o, k, got, want),
+                            "inputs": {"ops": ["%s(%s)" % x for x in seq]}}
+    return {"reproduced": False, "detail": "%d operation sequences over string / None / empty / zero values answer like the dict model" % n}
+
+
+def reads_leave_no_trace(model, payload):
+    """The read operations of the local store (has_blob, fetch_blob, fetch_paths -- what a stage-restricted evaluation
+    calls) change nothing on disk and answer from the committed state only, from every state an interrupted run can leave
+    behind: a temporary link <path>.tmp_link to another blob, temporary blob / meta files, a meta file without blob.
+    Bare store and cache-wrapped store; then the same through dds.eval(..., dds_stages=[analysis ...]) of a function that
+    loads a committed path."""
+    import importlib
+    import sys
+    from collections import OrderedDict
+    from dds.store import LocalFileStore
+    from dds._lru_store import LRUCacheStore
+
+    def snapshot(d):
+        out = {}
+        for root, dirs, files in os.walk(d):
+            for n in dirs + files:
+                full = os.path.join(root, n)
+                rel = os.path.relpath(full, d)
+                if os.path.islink(full):
+                    out[rel] = ("link", os.readlink(full))
+                elif os.path.isdir(full):
+                    out[rel] = ("dir",)
+                else:
+                    out[rel] = ("file", open(full, "rb").read())
+        return out
+
+    def diff(a, b):
+        return sorted(k for k in set(a) | set(b) if a.get(k) != b.get(k))
+
+    leftovers_all = ["tmp_link_of_committed_path", "tmp_link_of_new_path", "tmp_blob", "tmp_meta", "meta_without_blob"]
+    for r in range(0, 3):
+        for combo in itertools.combinations(leftovers_all, r):
+            for wrapped in (False, True):
+                d = tempfile.mkdtemp(prefix="dds_replay_reads_")
+                try:
+                    inner = LocalFileStore(os.path.join(d, "internal"), os.path.join(d, "data"))
+                    inner.store_blob("k1", "v1", None)
+                    inner.store_blob("k2", "v2", None)
+                    inner.sync_paths(OrderedDict([("/p", "k1"), ("/dir/q", "k1")]))
+                    blobs = os.path.join(d, "internal", "blobs")
+                    data = os.path.join(d, "data")
+                    for lo in combo:
+                        if lo == "tmp_link_of_committed_path":
+                            os.symlink(os.path.join(blobs, "k2"), os.path.join(data, "p.tmp_link"))
+                        elif lo == "tmp_link_of_new_path":
+                            os.symlink(os.path.join(blobs, "k2"), os.path.join(data, "dir", "fresh.tmp_link"))
+                        elif lo == "tmp_blob":
+                            open(os.path.join(blobs, "k3.tmp"), "wb").write(b"partial")
+                        elif lo == "tmp_meta":
+                            open(os.path.join(blobs, "k3.meta.tmp"), "wb").write(b"{")
+                        else:
+                            shutil.copy(os.path.join(blobs, "k1.meta"), os.path.join(blobs, "k3.meta"))
+                    st = LRUCacheStore(inner, 2) if wrapped else inner
+                    who = "cache-wrapped local store" if wrapped else "local store"
+                    before = snapshot(d)
+                    ops = [("has_blob('k1')", lambda: st.has_blob("k1"), True), ("has_blob('k3')", lambda: st.has_blob("k3"), False), ("fetch_blob('k1')", lambda: st.fetch_blob("k1"), "v1"),
+                           ("fetch_blob('k3')", lambda: st.fetch_blob("k3"), None), ("fetch_paths(['/p'])", lambda: dict(st.fetch_paths(["/p"])), {"/p": "k1"}),
+                           ("fetch_paths(['/p', '/dir/q'])", lambda: dict(st.fetch_paths(["/p", "/dir/q"])), {"/p": "k1", "/dir/q": "k1"}),
+                           ("fetch_paths(['/dir/fresh'])", lambda: dict(st.fetch_paths(["/dir/fresh"])), "DDSException"), ("fetch_paths(['/none/at/all'])", lambda: dict(st.fetch_paths(["/none/at/all"])), "DDSException")]
+                    for name, op, want in ops:
+                        try:
+                            got = op()
+                        except BaseException as e:
+                            got = type(e).__name__
+                        after = snapshot(d)
+                        if after != before:
+                            return {"reproduced": True, "detail": "%s with leftovers %s: %s changed the store on disk: %s" % (who, list(combo), name, diff(before, after)[:4]), "inputs": {"leftovers": list(combo), "operation": name, "wrapped": wrapped}}
+                        if got != want:
+                            return {"reproduced": True, "detail": "%s with leftovers %s: %s -> %r, the committed state says %r" % (who, list(combo), name, got, want), "inputs": {"leftovers": list(combo), "operation": name, "wrapped": wrapped}}
+                    # the same through a stage-restricted evaluation
+                    import dds
+                    import dds._api as api
+
+                    md = os.path.join(d, "mod")
+                    os.makedirs(md)
+                    mname = "dry_reader_%d" % (abs(hash((combo, wrapped))) % 10 ** 8)
+                    open(os.path.join(md, mname + ".py"), "w").write("import dds\nCALLS = []\n\ndef reader():\n    CALLS.append(1)\n    return 'seen:' + dds.load('/p')\n")
+                    sys.path.insert(0, md)
+                    try:
+                        m = importlib.import_module(mname)
+                        dds.accept_module(m)
+                        old_store = api._store_var
+                        api._store_var = st
+                        before = snapshot(d)
+                        for stages in (["analysis"], ["analysis", "store_inspect"]):
+                            try:
+                                res = dds.eval(m.reader, dds_stages=stages)
+                                err = None
+                            except BaseException as e:
+                                res, err = None, "%s: %s" % (type(e).__name__, str(e)[:100])
+                            after = snapshot(d)
+                            if err or res is not None or m.CALLS or after != before:
+                                return {"reproduced": True, "detail": "%s with leftovers %s: dds.eval(reader, dds_stages=%s) -> %r / %s, user calls %d, changed on disk: %s" % (who, list(combo), stages, res, err, len(m.CALLS), diff(before, after)[:4]),
+                                        "inputs": {"leftovers": list(combo), "stages": stages, "wrapped": wrapped}}
+                        if dds.eval(m.reader) != "seen:v1":
+                            return {"reproduced": True, "detail": "%s with leftovers %s: after the dry runs a full evaluation of the reader of /p does not see the committed value v1" % (who, list(combo)), "inputs": {"leftovers": list(combo)}}
+                    finally:
+                        api._store_var = old_store
+                        sys.path.remove(md)
+                        sys.modules.pop(mname, None)
+                finally:
+                    shutil.rmtree(d, ignore_errors=True)
+    return {"reproduced": False, "detail": "read operations and stage-restricted evaluations leave all 16 leftover states x {bare, cache-wrapped} byte-identical on disk and answer from the committed state"}
+
